@@ -9,8 +9,6 @@ CONSTANTS MinReq = 2
  ExT = 1
  SlotLen = 0
  DLOff = 2
- LocalProtocols <- LP
- LocalProposals <- LP
  V2Versions = {"v2", "v3"}
  DupPolicy = "first"
  MaxTime = 2
